@@ -403,3 +403,38 @@ def c15_multi(case, obs):
         if why:
             return "run key %d: %s" % (k, why)
     return None
+
+
+def c05_monitors(case, obs):
+    """C05 for monitor streams: monitor updates are never replayed, so they always get fresh seq_nums - also across a
+    rewind - and a stream fed only by monitor updates is numbered exactly 1..N with N = its num_events in the RunStop."""
+    view = View()
+    mon = {}          # stream -> seq_nums of the monitor events of the current run, in order
+    other = set()     # streams that also got events from elsewhere (bundles, collect)
+    for i, (op, o) in enumerate(zip(case["ops"], obs)):
+        k, docs, res = op[0], o["docs"], o["res"]
+        where = "op %d %s: " % (i, k)
+        if k == "open_run" and res == "ok":
+            mon, other = {}, set()
+        for d in docs:
+            view.see(d)
+            if d[0] == "event":
+                nm = view.name_of(d[2])
+                if k == "mon_event":
+                    seqs = mon.setdefault(nm, [])
+                    if d[3] in seqs:
+                        return where + "monitor update in stream %s re-uses seq_num %d (earlier updates: %r)" % (nm, d[3], seqs)
+                    seqs.append(d[3])
+                else:
+                    other.add(nm)
+            elif d[0] == "sdatum":
+                other.add(view.name_of(d[3]))
+            elif d[0] == "stop":
+                ne = dict((a, b) for a, b in d[5])
+                for nm, seqs in mon.items():
+                    if nm in other or nm is None:
+                        continue
+                    if seqs != list(range(1, len(seqs) + 1)) or ne.get(nm) != len(seqs):
+                        return where + ("stream %s holds the monitor updates with seq_nums %r, the RunStop says num_events=%r"
+                                        % (nm, seqs, ne.get(nm)))
+    return None
